@@ -33,7 +33,7 @@ for d in sorted(glob.glob('/verif/seeded/C*-*')):
     json.dump(meta, open(d + '/meta.json', 'w'), indent=1)
     rows.append((n, status, (notes.get(n) or r[1])[:160], (meta.get('summary') or '')[:110]))
 with open('/verif/seeded/SUMMARY.md', 'w') as f:
-    f.write("# Seeded changes and what the quick checks report\n\nOne line per change (`seeded/<name>/patch.diff`, demo and meta.json alongside). Rounds: a/b first, c/d second, e/f third, g/h fourth.\nResult = `./check <property> quick` with the change applied to /repo (latest run; see RESULTS.log and FINAL.log).\n\n| change | result | first line of the report / note | what was changed |\n|---|---|---|---|\n")
+    f.write("# Seeded changes and what the quick checks report\n\nOne line per change (`seeded/<name>/patch.diff`, demo and meta.json alongside). Rounds: a/b first, c/d second, e/f third, g/h fourth, i/j fifth.\nResult = `./check <property> quick` with the change applied to /repo (latest run; see RESULTS.log and FINAL.log).\n\n| change | result | first line of the report / note | what was changed |\n|---|---|---|---|\n")
     for n, status, info, summ in rows:
         f.write(f"| {n} | {status} | {info.replace('|', '/')} | {summ.replace('|', '/')} |\n")
     c = sum(1 for r in rows if r[1].startswith('caught'))
